@@ -118,6 +118,14 @@ def reduceX (fn : String) (c : Nat) (rows : List (List Q)) : Option (List Q) :=
   | "minmaxmean" =>
     let flat := rows.flatten
     some [Q.minL flat, Q.maxL flat, (Q.sum flat).divNat flat.length]
+  -- `np.sum` / `np.max` / `np.min` without axis: the whole segment (all columns) collapses to one scalar
+  | "sumall" => some [Q.sum rows.flatten]
+  | "maxall" => some [Q.maxL rows.flatten]
+  | "minall" => some [Q.minL rows.flatten]
+  -- the same functions called with `axis=0`: one value per column
+  | "sumax0" => some (cols.map Q.sum)
+  | "maxax0" => some (cols.map Q.maxL)
+  | "minax0" => some (cols.map Q.minL)
   | _ => none
 
 /-- numpy's result dtype kind for (function, data kind) -/
@@ -125,7 +133,8 @@ def resultKind (fn kind : String) : String :=
   match fn with
   | "mean0" | "half" | "minmaxmean" => "f"
   | "anypos" => "b"
-  | _ => if kind == "f" then "f" else "i"       -- sum0: bool and int sum to int
+  | "maxall" | "minall" | "maxax0" | "minax0" => kind      -- max / min keep the data dtype
+  | _ => if kind == "f" then "f" else "i"       -- sums: bool and int sum to int
 
 def showQ (kind : String) (q : Q) : String :=
   if kind == "f" then s!"{q.num}/{q.den}" else s!"{q.num}"
@@ -152,6 +161,19 @@ def step (st : St) (line : String) : St × String :=
     match parseAtoms s with
     | some xs => ({ st with atoms := xs }, s!"ok {xs.length}")
     | none => (st, "bad-op")
+  -- the same annotations held by an AtomArrayStack of `d` models: the model count plays no role
+  | ["stack", d] => (st, if d.toNat?.isSome then "ok" else "bad-op")
+  -- in-place edits of the bond list between two molecule queries
+  | ["rmbond", i, j] =>
+    match i.toNat?, j.toNat? with
+    | some i, some j =>
+      ({ st with bonds := st.bonds.filter (fun b => !((b.1 == i && b.2 == j) || (b.1 == j && b.2 == i))) }, "ok")
+    | _, _ => (st, "bad-op")
+  | ["addbond", i, j, t] =>
+    match i.toNat?, j.toNat?, t.toNat? with
+    | some i, some j, some _ =>
+      if i < st.n && j < st.n then ({ st with bonds := st.bonds ++ [(i, j)] }, "ok") else (st, "unmodelled")
+    | _, _, _ => (st, "bad-op")
   | ["starts", w, stop] =>
     let addStop := stop == "1"
     match w with
